@@ -7,6 +7,7 @@ From Utp Require Import Base.Prelude Wire.SeqNr Rtt.Rtte.
 From Utp Require Import Wire.Header.
 From Utp Require Import Rx.Rx Tx.Segments Tx.Ring.
 From Utp Require Import Cubic.F64 Cubic.Cubic Cubic.Libm.
+From Utp Require Import Conn.Recovery Conn.Msg Conn.VSockRec Conn.VSock Conn.VSockRun.
 
 Extraction Language OCaml.
 Extraction "model"
@@ -18,4 +19,5 @@ Extraction "model"
   segments_new seg_trace seg_run
   tx_new tx_trace tx_run c19_ok
   deserialize serialize msg_deserialize sack_new sack_deserialize c11_de_ok c11_msg_ok c11_ser_ok
+  vsock_new_cubic vtrace_cubic retransmission_timeout roundtrip_time cubic_window cubic_sshthresh
   cubic_new cubic_trace c15_obs_ok c15_obs_core f64_view BETA_CUBIC C_CUBIC cbrt_cr.
